@@ -10,7 +10,7 @@ from lv import tlc
 
 KEEP = {'submit', 'pstart', 'rbegin', 'dread', 'rend', 'load', 'w_die', 'w_term', 'sample', 'consume', 'died',
         'exec_stop', 'complete', 'capture', 'removed', 'closed', 'int', 'outcome', 'obs_cache', 'obs_marks',
-        'obs_logs', 'lemit'}
+        'obs_logs', 'lemit', 'obs_ctxstore'}
 TOKEN = re.compile(r'msg:\d+:\w:\d+')
 
 
@@ -43,7 +43,7 @@ def to_monitor(tid: str, cfg: dict, trace: list, *, real: bool = False, caller_p
         else:
             if 't' in r and not isinstance(r['t'], int):
                 raise ValueError(f'event without an integer task id: {r}')
-            ev.append({kk: vv for kk, vv in r.items() if kk not in ('pid', 's', 'at', 'msg', 'k') or kk == 'k' and k == 'int'})
+            ev.append({kk: vv for kk, vv in r.items() if kk not in ('pid', 's', 'at', 'msg')})
     c = dict(cfg)
     c['real'] = bool(real)
     c['ctxkeys'] = ctxkeys if ctxkeys is not None else [[] for _ in range(cfg['n'])]
